@@ -22,6 +22,8 @@ RULE = ("(a) random permutations of the default 32-group list (the model side pe
         "(b') the systematic family of R-prefixed chains over {C,O} with up to 4 heavy atoms (30 patterns): the whole pool and random 5-8-element subsets "
         "(half of them seeded with a group that has two covering parents sharing an ancestor), each in 2-3 orders; (b'') lists mixing lower-case aromatic and "
         "upper-case symbols, mostly built WITHOUT a mapper argument (the provider's fallback mapper must be wildcard R / ignore_case=True); "
+        "about a quarter of the generated / chain lists give two groups the SAME name (groups are identified by position, "
+        "object identity on the Python side, and handed to the model under unique labels); "
         "(b) generated lists of 3-8 patterns drawn from a pool of 80 patterns (chains, branched, ring-closed super-patterns such "
         "as CCC / C1CC1 / C1=CC1, wildcards R, multi-bonds, aromatic bonds, hetero atoms, a few isomorphic pairs that make "
         "is_subgroup assert), random group_atoms, ~20% of the lists with anti-patterns, each list in 4 orders. Every case is "
@@ -79,6 +81,8 @@ def generate(seed, tier, ncases=None):
         if rng.random() < 0.5:
             for i, sp0 in enumerate(specs):
                 sp0["name"] = "g%d" % i         # the same tuple of names for different lists of the stream
+        if rng.random() < 0.2:
+            fc.dup_names(rng, specs)            # two groups with the same name
         for o in range(4):
             sp = list(specs)
             if o == 1:
@@ -104,6 +108,9 @@ def generate(seed, tier, ncases=None):
                                ["RO", "RC", "ROC", "ROO", "ROOC"], ["RC", "RO", "RCO", "RCC", "RCCO", "RCOC"]])
             sub = list(dict.fromkeys(core + sub))[:8]
         specs = fc.named(sub, "c")
+        if rng.random() < 0.35:
+            # two groups sharing a name, preferably two covering parents of one child
+            fc.dup_names(rng, specs, rng.choice([["RCO", "ROO"], ["ROC", "RCC"], ["RCC", "RCO"], None]))
         for o in range(rng.choice([2, 3])):
             sp = list(specs)
             if o == 1:
@@ -160,6 +167,16 @@ def _corpus():
         c["via"] = via
         yield c
     yield L(["RCOO", "ROO", "RCO", "RO", "RC"], "corpus-twoparents")
+    # one class name for two groups that are both covering parents of a third (ester and amide, child carbamate)
+    dup = [{"name": "carbonyl", "pattern": "C=O"}, {"name": "acyl_derivative", "pattern": "RC(=O)OR", "group_atoms": [1, 2, 3]},
+           {"name": "acyl_derivative", "pattern": "RC(=O)N(R)R", "group_atoms": [1, 2, 3]},
+           {"name": "carbamate", "pattern": "ROC(=O)N(R)R", "group_atoms": [1, 2, 3, 4]}]
+    for via in VIAS:
+        yield _mk("corpus", [dict(x) for x in dup], via, "corpus-dupnames")
+    yield _mk("corpus", [dict(x) for x in reversed(dup)], "build", "corpus-dupnames")
+    c = L(["RC", "RO", "RCO", "ROO", "RCOO"], "corpus-dupnames2")
+    c["specs"][2]["name"] = c["specs"][3]["name"] = "cls"
+    yield c
     # upper-case aromatic-bond patterns below lower-case ones: needs ignore_case=True, also without a mapper argument
     for via in VIAS:
         c = L(["C:C", "ccc", "C:CO", "c1ccccc1O", "ccN"], "corpus-mixedcase")
@@ -210,7 +227,8 @@ def coq_case(c, out):
     if c["order"] is not None:
         cfgs = "(pick default_configs %s)" % ("(%s : list nat)" % ct.lst([ct.nat(i) for i in c["order"]]))
     else:
-        cfgs = fc.cfgs_term(c["specs"])
+        # groups are identified by position: the model gets them under unique labels (names may repeat)
+        cfgs = fc.cfgs_term(c["specs"], labelled=True)
     defs = {"cfgs": cfgs, "out": fc.view_term(out)}
     model = "build_config_tree_from_list default_mapper $cfgs"
     # the Hasse-diagram checker is applied wherever the statement applies: anti-pattern-free lists with the
@@ -247,6 +265,7 @@ def nontrivial(c, out):
 
 def classes(c, out):
     yield "kind=" + c["kind"]
+    yield "dup_names=" + ("yes" if fc.has_dup_names(c["specs"]) else "no")
     yield "via=" + c["via"]
     yield "result=" + out[0]
     yield "anti=" + ("yes" if fc.has_anti(c["specs"]) else "no")
